@@ -310,6 +310,72 @@ def for_to_while(tree):
     return tree
 
 
+def swap_if_branches(tree):
+    """`if c: A else: B` -> `if not c: B else: A` (plain else branches only, not elif chains); `is` / `in` tests are negated in place"""
+    for fn in [n for n in ast.walk(tree) if isinstance(n, ast.FunctionDef)]:
+        for i in [n for n in ast.walk(fn) if isinstance(n, ast.If)]:
+            if i.orelse and not (len(i.orelse) == 1 and isinstance(i.orelse[0], ast.If)):
+                t = i.test
+                if isinstance(t, ast.UnaryOp) and isinstance(t.op, ast.Not):
+                    nt = t.operand
+                elif isinstance(t, ast.Compare) and len(t.ops) == 1 and type(t.ops[0]) in (ast.Is, ast.IsNot, ast.In, ast.NotIn):
+                    inv = {ast.Is: ast.IsNot, ast.IsNot: ast.Is, ast.In: ast.NotIn, ast.NotIn: ast.In}
+                    nt = ast.Compare(left=t.left, ops=[inv[type(t.ops[0])]()], comparators=t.comparators)
+                else:
+                    nt = ast.UnaryOp(op=ast.Not(), operand=t)
+                i.test = ast.copy_location(nt, t)
+                i.body, i.orelse = i.orelse, i.body
+    return tree
+
+
+def unguard_continue(tree):
+    """`if c: continue` followed by the rest of a loop body -> `if not c: <rest>`"""
+    for fn in [n for n in ast.walk(tree) if isinstance(n, ast.FunctionDef)]:
+        for L in [n for n in ast.walk(fn) if isinstance(n, (ast.For, ast.While))]:
+            for k, st in enumerate(L.body):
+                if isinstance(st, ast.If) and not st.orelse and len(st.body) == 1 and isinstance(st.body[0], ast.Continue) and k + 1 < len(L.body):
+                    rest = L.body[k + 1:]
+                    new = ast.copy_location(ast.If(test=ast.UnaryOp(op=ast.Not(), operand=st.test), body=rest, orelse=[]), st)
+                    L.body = L.body[:k] + [new]
+                    break
+    return tree
+
+
+def name_constants(tree):
+    """numeric literals (floats, and ints other than -1, 0, 1, 2) used inside plain Python functions become module-level named constants"""
+    consts = {}
+    for fn in _not_njit_functions(tree):
+        class T(ast.NodeTransformer):
+            def visit_Constant(self, n):
+                v = n.value
+                if isinstance(v, bool) or not isinstance(v, (int, float)):
+                    return n
+                if isinstance(v, int) and v in (-1, 0, 1, 2):
+                    return n
+                name = consts.setdefault(repr(v), f"_NAMED_CONSTANT_{len(consts)}")
+                return ast.copy_location(ast.Name(id=name, ctx=ast.Load()), n)
+
+            def visit_FunctionDef(self, n):
+                # defaults / decorators / annotations stay literal
+                n.body = [self.visit(s) for s in n.body]
+                return n
+
+            def visit_JoinedStr(self, n):
+                return n
+
+            def visit_Subscript(self, n):
+                n.value = self.visit(n.value)          # literal indexes (row[2]) stay literal
+                return n
+        fn.body = [T().visit(s) for s in fn.body]
+    idx = 0
+    while idx < len(tree.body) and (isinstance(tree.body[idx], (ast.Import, ast.ImportFrom)) or
+                                    (isinstance(tree.body[idx], ast.Expr) and isinstance(tree.body[idx].value, ast.Constant))):
+        idx += 1
+    for rep, name in consts.items():
+        tree.body.insert(idx, ast.Assign(targets=[ast.Name(id=name, ctx=ast.Store())], value=ast.parse(rep, mode="eval").body, lineno=1, col_offset=0))
+    return tree
+
+
 def keyword_args(tree, signatures=None):
     """positional arguments of calls to package functions / methods / constructors with a package-unique name become keyword arguments
     (all but the first one); `signatures`: name -> parameter list without the receiver, computed over the whole package"""
@@ -359,7 +425,7 @@ TRANSFORMS = {"return_via_local": return_via_local, "split_tuple_assign": split_
               "listcomp_to_loop": listcomp_to_loop, "drop_else_after_return": drop_else_after_return,
               "add_logging": add_logging, "annotate_locals": annotate_locals, "rename_self": rename_self, "flip_comparisons": flip_comparisons,
               "explaining_temps": explaining_temps, "guard_continue": guard_continue, "ifexp_to_if": ifexp_to_if, "if_to_ifexp": if_to_ifexp,
-              "for_to_while": for_to_while, "keyword_args": keyword_args}
+              "for_to_while": for_to_while, "keyword_args": keyword_args, "swap_if_branches": swap_if_branches, "unguard_continue": unguard_continue, "name_constants": name_constants}
 
 
 def transform_package(name, src, dst):
